@@ -37,8 +37,22 @@ def selfcheck():
                 r = json.loads(ln)
                 assert {"id", "property", "file", "old", "new", "expect"} <= set(r), r
                 n_mut += 1
+    # the normaliser must preserve behaviour: its sample programs run identically before and after every rewrite, and every rewrite still fires
+    from .normalise_samples import SAMPLES, validate
+    problems = validate()
+    if problems:
+        for name, why in problems:
+            print(f"ANALYSIS-ERROR normaliser sample '{name}': {why}")
+        return 2
+    # ... and it must leave every module of the repository compilable
+    tot = {}
+    for m in P.modules.values():
+        compile(m.tree, m.path, "exec")
+        for k, v in (getattr(m, "normalised", {}) or {}).items():
+            if isinstance(v, int):
+                tot[k] = tot.get(k, 0) + v
     man = json.load(open(os.path.join(VERIF, "MANIFEST.json")))
     assert len(man["checks"]) == n_props, (len(man["checks"]), n_props)
     print(f"uxsa selfcheck: parsed {len(P.modules)} modules, {P.n_functions} functions from {REPO}; {n_props} property modules; "
-          f"{n_known} known findings, {n_fixed} fixed entries; {n_mut} catalogue mutants")
+          f"{n_known} known findings, {n_fixed} fixed entries; {n_mut} catalogue mutants; normaliser: {len(SAMPLES)} equivalence samples ok, rewrites applied to the repository {tot}")
     return 0
